@@ -35,9 +35,13 @@ type c20Op struct {
 	K    int
 }
 
-type c20Case struct{ Ops []c20Op }
+type c20Case struct {
+	Ops []c20Op
+	// v1: the controllers the caller asks for ("" = all five); e.g. "memory+pids" for somebody who only wants those limits
+	Ctrl string `json:",omitempty"`
+}
 
-var c20Kinds = []string{"child", "child", "random", "random", "nest", "addproc", "addproc", "setmem", "setproc", "setcpu", "usage", "destroy", "destroy", "external", "external-partial", "concurrent-random", "concurrent-new", "reopen", "nest-existing", "openexisting", "openexisting"}
+var c20Kinds = []string{"child", "child", "random", "random", "nest", "addproc", "addproc", "setmem", "setproc", "setcpu", "usage", "destroy", "destroy", "external", "external-partial", "concurrent-random", "concurrent-new", "reopen", "nest-existing", "openexisting", "openexisting", "open-destroy", "open-destroy"}
 
 func c20GenCase(rt *rapid.T) c20Case {
 	var c c20Case
@@ -46,6 +50,7 @@ func c20GenCase(rt *rapid.T) c20Case {
 		c.Ops = append(c.Ops, c20Op{Kind: rapid.SampledFrom(c20Kinds).Draw(rt, "kind"), H: rapid.IntRange(0, 7).Draw(rt, "h"), Name: rapid.IntRange(0, 3).Draw(rt, "name"),
 			P: rapid.IntRange(0, 2).Draw(rt, "p"), Val: rapid.SampledFrom([]uint64{32 << 20, 64<<20 + 123, 1 << 30, 1<<40 + 4095, 100, 1000}).Draw(rt, "val"), K: rapid.IntRange(2, 8).Draw(rt, "k")})
 	}
+	c.Ctrl = rapid.SampledFrom([]string{"", "", "", "memory+pids", "pids", "memory", "cpuacct+memory", "cpu+cpuacct+memory+pids"}).Draw(rt, "controllers")
 	return c
 }
 
@@ -98,6 +103,26 @@ func c20Run(c c20Case, w *c20World, v1 bool, rec *vh.Recorder) error {
 	ct := &cgroup.Controllers{CPU: true, CPUSet: true, CPUAcct: true, Memory: true, Pids: true}
 	if !v1 {
 		ct = &cgroup.Controllers{}
+	}
+	enabled := func(string) bool { return true }
+	if v1 && c.Ctrl != "" {
+		en := map[string]bool{}
+		for _, n := range strings.Split(c.Ctrl, "+") {
+			en[n] = true
+		}
+		enabled = func(n string) bool { return en[n] }
+		ct = &cgroup.Controllers{CPU: en["cpu"], CPUSet: en["cpuset"], CPUAcct: en["cpuacct"], Memory: en["memory"], Pids: en["pids"]}
+		ww := *w
+		ww.ctrls = nil
+		for _, x := range w.ctrls {
+			if en[x] {
+				ww.ctrls = append(ww.ctrls, x)
+			}
+		}
+		if len(ww.ctrls) == 0 {
+			return vh.Infraf("no hierarchy for controller set %q among %v", c.Ctrl, w.ctrls)
+		}
+		w = &ww
 	}
 	// deterministic, colliding random names
 	var rnd atomic.Int64
@@ -325,6 +350,25 @@ func c20Run(c c20Case, w *c20World, v1 bool, rec *vh.Recorder) error {
 			handles = append(handles, &c20Handle{cg: nh, path: rel, created: false})
 			nt = true
 			classes = append(classes, "openexisting")
+		case "open-destroy":
+			// somebody who only looks at a group: OpenExisting, then Destroy of that handle. The group was made by someone
+			// else (a live creating handle of this history, or from outside) and must still be there afterwards.
+			if h.path == prefix || hasChildren(h.path) || len(members(h.path)) > 0 || isPartialRel(partial, h.path) {
+				continue
+			}
+			if all, _ := w.exists(h.path); !all {
+				continue
+			}
+			nh, err := cgroup.OpenExisting(h.path, ct)
+			if err != nil || nh == nil {
+				return vh.Violf("C20:openexisting-failed", "%s: OpenExisting(%q) of an existing group: %v", desc(i, op), h.path, err)
+			}
+			derr := nh.Destroy()
+			if all, _ := w.exists(h.path); !all {
+				return vh.Violf("C20:destroyed-pre-existing", "%s: Destroy (err %v) of a handle obtained with OpenExisting(%q) removed the group, which this handle did not create", desc(i, op), derr, h.path)
+			}
+			nt = true
+			classes = append(classes, "open-then-destroy-leaves-the-group")
 		case "random":
 			before := listDirs(h.path)
 			nh, err := h.cg.Random("r*x")
@@ -468,6 +512,9 @@ func c20Run(c c20Case, w *c20World, v1 bool, rec *vh.Recorder) error {
 			if !v1 {
 				continue
 			}
+			if !enabled(map[string]string{"setmem": "memory", "setproc": "pids", "setcpu": "cpu"}[op.Kind]) {
+				continue // the caller did not ask for that controller
+			}
 			var err error
 			var file string
 			var want string
@@ -496,10 +543,10 @@ func c20Run(c c20Case, w *c20World, v1 bool, rec *vh.Recorder) error {
 				return vh.Violf("C20:limit-not-in-force", "%s: %s reads %q (%v) after setting %d, want %s", desc(i, op), file, strings.TrimSpace(string(b)), rerr, op.Val, want)
 			}
 		case "usage":
-			if _, err := h.cg.CPUUsage(); err != nil && v1 {
+			if _, err := h.cg.CPUUsage(); err != nil && v1 && enabled("cpuacct") {
 				return vh.Violf("C20:reader-failed", "%s: CPUUsage: %v", desc(i, op), err)
 			}
-			if _, err := h.cg.MemoryUsage(); err != nil && v1 {
+			if _, err := h.cg.MemoryUsage(); err != nil && v1 && enabled("memory") {
 				return vh.Violf("C20:reader-failed", "%s: MemoryUsage: %v", desc(i, op), err)
 			}
 			ps, err := h.cg.Processes()
@@ -591,6 +638,9 @@ func c20Run(c c20Case, w *c20World, v1 bool, rec *vh.Recorder) error {
 				return vh.Violf("C20:destroyed-pre-existing", "%s: the externally created group %s disappeared", desc(i, op), rel)
 			}
 		}
+	}
+	if v1 {
+		classes = append(classes, "controllers="+map[bool]string{true: "all", false: c.Ctrl}[c.Ctrl == ""])
 	}
 	rec.Case(c, nt, dedup(classes)...)
 	rec.Evals(len(c.Ops))
